@@ -184,4 +184,46 @@ theorem predictT_exact (st : LState) (x : List Q) (p : ℕ → ℚ[X]) (hd : st.
   obtain ⟨c, hc, hw⟩ := (hgood k hk).wt
   exact interp1_exact _ _ (hgood k hk).nodup (hgood k hk).len c hc hw (p k) (hdeg k hk) _
 
+
+/-- the 1-d interpolation sum of dimension `k` for arbitrary product-form data `g k a` (value factor of node `a`) -/
+def interp1g (st : LState) (x : List Q) (g : ℕ → ℕ → Q) (k : ℕ) : Q :=
+  ∑ a ∈ range (st.grids.getD k []).length,
+    basis 0 (x.getD k 0) (st.grids.getD k []) (st.wts.getD k []) a * g k a
+
+/-- `Lagrange.predict` on ANY product-form data `y(node j) = Π_k g_k(j_k)` -/
+theorem predictT_productg (st : LState) (x : List Q) (g : ℕ → ℕ → Q) (hd : st.grids.length = x.length)
+    (hpos : ∀ k, k < x.length → 0 < (st.grids.getD k []).length) :
+    predictT 0 st (prodRows g (st.grids.map List.length)) x =
+      [((List.range x.length).map fun k => interp1g st x g k).prod] := by
+  unfold predictT
+  rw [tensorSum_product]
+  · simp only [List.length_map, hd]
+    congr 1; congr 1
+    apply List.map_congr_left
+    intro k hk
+    rw [List.mem_range] at hk
+    have hk' : k < st.grids.length := by omega
+    have hsz : (st.grids.map List.length).getD k 0 = (st.grids.getD k []).length := by
+      simp [List.getD_eq_getElem?_getD, List.getElem?_eq_getElem hk']
+    rw [hsz, list_sum_range]
+    unfold interp1g
+    apply Finset.sum_congr rfl
+    intro a ha
+    rw [factorTable_getD st x k a hk (mem_range.mp ha)]
+  · intro n hn
+    rw [List.mem_map] at hn
+    obtain ⟨gg, hg, rfl⟩ := hn
+    obtain ⟨k, hk, rfl⟩ := List.getElem_of_mem hg
+    have := hpos k (by omega)
+    simpa [List.getD_eq_getElem?_getD, List.getElem?_eq_getElem hk] using this
+
+/-- at a grid node the model's basis values are the node indicators (tolerance 0) -/
+theorem basis_at_node (grid ws : List Q) (hg : GoodDim grid ws) (n a : ℕ) (hn : n < grid.length) (ha : a < grid.length) :
+    basis 0 (nodeFn grid n) grid ws a = if a = n then 1 else 0 := by
+  obtain ⟨c, hc, hw⟩ := hg.wt
+  rw [basis_eq_eval grid ws hg.nodup hg.len c hc hw _ a ha]
+  by_cases h : a = n
+  · subst h; rw [if_pos rfl]; exact eval_basis_self (injOn_nodeFn hg.nodup) (mem_range.mpr ha)
+  · rw [if_neg h]; exact eval_basis_of_ne h (mem_range.mpr hn)
+
 end Amisc.Tensor
